@@ -81,13 +81,13 @@ Definition ws_TR (t : wsst) (rw lw : list Z) (od : option (list Z)) : Prop :=
     rw = concat (map (fun x => frame_of (fst x) (snd x)) fs) ++ part
     /\ lw = concat (map fst fs)
     /\ Forall (fun x => exists n, snd x = keyf n) fs
-    /\ ((sendbuf t = [] /\ part = [])
-        \/ (sendbuf t <> [] /\ exists d n, od = Some d /\ req t = zlen d
+    /\ ((sendbuf t = [] /\ part = [] /\ pend t = false)
+        \/ (sendbuf t <> [] /\ pend t = true /\ exists d n, od = Some d /\ req t = zlen d
                                           /\ part ++ sendbuf t = frame_of d (keyf n))).
 
 Lemma ws_TR_none t rw lw : ws_TR t rw lw None -> forall od, ws_TR t rw lw od.
 Proof.
-  intros (fs & part & H1 & H2 & H3 & [H4|(_ & d & n & H4 & _)]) od; [|discriminate].
+  intros (fs & part & H1 & H2 & H3 & [H4|(_ & _ & d & n & H4 & _)]) od; [|discriminate].
   exists fs, part. repeat split; try assumption. left. assumption.
 Qed.
 
@@ -108,13 +108,13 @@ Proof.
   intros (fs & part & H1 & H2 & H3 & H4) Hs. unfold ws_send in Hs.
   pose proof (zlen_nonneg d) as Hd0.
   (* the state after the optional frame creation: buffer [part0 ++ buf] is the frame of d *)
-  assert (Hmid : forall t1, (sendbuf t1 <> [] /\ req t1 = zlen d /\ exists part0 n, rw = concat (map (fun x => frame_of (fst x) (snd x)) fs) ++ part0 /\ part0 ++ sendbuf t1 = frame_of d (keyf n)) ->
+  assert (Hmid : forall t1, (sendbuf t1 <> [] /\ pend t1 = true /\ req t1 = zlen d /\ exists part0 n, rw = concat (map (fun x => frame_of (fst x) (snd x)) fs) ++ part0 /\ part0 ++ sendbuf t1 = frame_of d (keyf n)) ->
      (let '(o, s0) := next_outcome (zlen (sendbuf t1)) s in
       match o with
       | Accept k =>
         let n := clip k (zlen (sendbuf t1)) in
         let buf' := zskip n (sendbuf t1) in
-        let t2 := mkws buf' (req t1) (nframes t1) in
+        let t2 := mkws buf' (req t1) (nframes t1) (negb (is_nil buf') && pend t1) in
         (SWrote (if is_nil buf' then req t1 else 0), t2, ztake n (sendbuf t1), s0)
       | Block => (SBlock, t1, [], s0)
       | Fail => (SFail, t1, [], s0)
@@ -126,9 +126,9 @@ Proof.
                 /\ (n = 0 -> ws_TR t' (rw ++ raw) lw (Some d))
      | _ => ws_TR t' (rw ++ raw) lw (Some d)
      end).
-  { intros t1 (Hb & Hr & part0 & n & Hrw & Hfr) Ho.
+  { intros t1 (Hb & Hpd & Hr & part0 & n & Hrw & Hfr) Ho.
     assert (Hsame : ws_TR t1 (rw ++ []) lw (Some d)).
-    { rewrite app_nil_r. exists fs, part0. repeat split; try assumption. right. split; [assumption|].
+    { rewrite app_nil_r. exists fs, part0. repeat split; try assumption. right. split; [assumption|]. split; [assumption|].
       exists d, n. repeat split; assumption. }
     destruct (next_outcome (zlen (sendbuf t1)) s) as [o s0].
     destruct o; injection Ho as <- <- <- <-; try exact Hsame.
@@ -139,30 +139,30 @@ Proof.
       split; [lia|]. split.
       + intros _ od. exists (fs ++ [(d, keyf n)]), []. split; [exact Hrw'|].
         split; [rewrite map_app, concat_app, H2; cbn [map concat fst]; rewrite app_nil_r, ztake_all by lia; reflexivity|].
-        split; [apply ws_TR_snoc; assumption|]. left. cbn [sendbuf]. split; [assumption|reflexivity].
+        split; [apply ws_TR_snoc; assumption|]. left. cbn [sendbuf pend negb andb]. split; [assumption|]. split; reflexivity.
       + intros Hz. exists (fs ++ [(d, keyf n)]), []. split; [exact Hrw'|].
         split; [rewrite map_app, concat_app, H2; cbn [map concat fst]; rewrite (zlen_nil_inv d Hz), !app_nil_r; reflexivity|].
-        split; [apply ws_TR_snoc; assumption|]. left. cbn [sendbuf]. split; [assumption|reflexivity].
+        split; [apply ws_TR_snoc; assumption|]. left. cbn [sendbuf pend negb andb]. split; [assumption|]. split; reflexivity.
     - apply is_nil_false in Hnil. split; [lia|]. split; [lia|]. intros _.
       exists fs, (part0 ++ ztake (clip k (zlen (sendbuf t1))) (sendbuf t1)).
       split; [rewrite Hrw, <- app_assoc; reflexivity|]. split; [assumption|]. split; [assumption|].
-      right. cbn [sendbuf req]. split; [assumption|]. exists d, n. split; [reflexivity|]. split; [assumption|].
+      right. cbn [sendbuf req pend]. split; [assumption|]. split; [cbn [negb andb]; exact Hpd|]. exists d, n. split; [reflexivity|]. split; [assumption|].
       rewrite <- app_assoc, ztake_zskip. assumption. }
-  destruct (is_nil (sendbuf t)) eqn:Hnil.
-  - apply is_nil_true in Hnil. destruct H4 as [[_ Hp]|[Hne _]]; [|congruence]. subst part.
+  destruct H4 as [(Hnil & Hp & Hpf)|(Hne & Hpt & d0 & n & Hod & Hr & Hfr)].
+  - rewrite Hpf in Hs. cbn [negb] in Hs. subst part.
     rewrite app_nil_r in H1.
     destruct (create_frame 2 d 1 (keyf (nframes t))) as [f|] eqn:Hcf.
     + assert (Hf : f = frame_of d (keyf (nframes t))).
       { destruct (Z_lt_ge_dec (zlen d) 9223372036854775809) as [Hl|Hl].
         - rewrite create_frame_eq in Hcf by assumption. congruence.
         - rewrite create_frame_big in Hcf by lia. discriminate. }
-      apply Hmid in Hs; [exact Hs|]. cbn [sendbuf req]. rewrite Hnil. cbn [app].
-      split; [rewrite Hf; apply frame_of_nonempty|]. split; [reflexivity|].
+      apply Hmid in Hs; [exact Hs|]. cbn [sendbuf req pend]. rewrite Hnil. cbn [app].
+      split; [rewrite Hf; apply frame_of_nonempty|]. split; [reflexivity|]. split; [reflexivity|].
       exists [], (nframes t). split; [rewrite app_nil_r; assumption|]. cbn [app]. assumption.
     + inv Hs. rewrite app_nil_r. exists fs, []. rewrite app_nil_r. repeat split; try assumption.
-      left. cbn [sendbuf]. split; [assumption|reflexivity].
-  - apply is_nil_false in Hnil. destruct H4 as [[Hb _]|(_ & d0 & n & Hod & Hr & Hfr)]; [congruence|].
-    injection Hod as Hd. subst d0. apply Hmid in Hs; [exact Hs|]. split; [assumption|]. split; [assumption|].
+      left. cbn [sendbuf pend]. repeat split; try assumption; try reflexivity.
+  - rewrite Hpt in Hs. cbn [negb] in Hs.
+    injection Hod as Hd. subst d0. apply Hmid in Hs; [exact Hs|]. split; [assumption|]. split; [assumption|]. split; [assumption|].
     exists part, n. split; assumption.
 Qed.
 
@@ -369,7 +369,7 @@ Variable keyf : nat -> list Z.
 Hypothesis keyf_len : forall n, length (keyf n) = 4%nat.
 
 Lemma ws_TR_init : ws_TR keyf ws_init [] [] None.
-Proof. exists [], []. cbn. repeat split; [constructor|]. left. split; reflexivity. Qed.
+Proof. exists [], []. cbn. repeat split; [constructor|]. left. repeat split; reflexivity. Qed.
 
 Lemma ws_run_inv c ops : conn_once ops = true -> RInv wsst (ws_TR keyf) c (ws_run keyf c ops).
 Proof.
@@ -390,10 +390,10 @@ Proof.
     rewrite Forall_forall in *. intros x Hx. specialize (H3 x Hx) as [n Hn]. specialize (Hle x Hx).
     split; [rewrite Hn; apply keyf_len|lia]. }
   assert (Hp : parse_frame part = None).
-  { destruct H4 as [[_ ->]|(Hb & d & n & Hod & _ & Hf)]; [reflexivity|].
+  { destruct H4 as [(_ & -> & _)|(Hb & _ & d & n & Hod & _ & Hf)]; [reflexivity|].
     eapply parse_frame_part; [apply (keyf_len n)|apply Hd; exact Hod|exact Hf|exact Hb]. }
   exists (map fst fs), part. rewrite H1. split; [apply deframe_stream; assumption|]. split; [symmetry; assumption|].
-  intros Hb. destruct H4 as [[_ ->]|(Hne & _)]; [reflexivity|congruence].
+  intros Hb. destruct H4 as [(_ & -> & _)|(Hne & _)]; [reflexivity|congruence].
 Qed.
 
 Lemma head_off_le q d : head_off q = Some d -> zlen d <= zlen (unsent_q q).
@@ -464,7 +464,7 @@ Proof.
   unfold ws_run in Hh. rewrite run_hist in Hh.
   exists pre, p, post. split; [assumption|]. split; [assumption|]. split; [assumption|].
   pose proof (zlen_concat_prefix pre p post) as Hle. rewrite <- Hh in Hle. fold (queued_bytes ops) in Hle.
-  pose proof Ht as (fs & part & _ & _ & _ & [[Hb _]|(_ & d & n & Hod & _)]); [|discriminate].
+  pose proof Ht as (fs & part & _ & _ & _ & [(Hb & _)|(_ & _ & d & n & Hod & _)]); [|discriminate].
   apply ws_TR_deframe in Ht as (chunks & rest & Hd & Hc & Hr); [| rewrite Hl; lia | intros d Hd; discriminate].
   exists chunks. rewrite <- (Hr Hb). split; [assumption|]. rewrite Hc. exact Hl.
 Qed.
